@@ -17,7 +17,6 @@ Variable sB : state.
 Hypothesis Hrk : forall n e d, alookup p n = Some e -> In d (expr_reads e) -> (rk d < rk n)%nat.
 Hypothesis Hproj : forall n e d, alookup p n = Some e -> nkind n = KProjection -> In d (expr_reads e) ->
   is_fw_or_proj (nkind d) = true.
-Hypothesis Hng : forall n e, alookup p n = Some e -> no_group e = true.
 
 Notation mquery := (query_for p None).
 Notation mexecute := (execute p None).
@@ -139,7 +138,7 @@ Definition msound_execute (f : nat) : Prop :=
     XPost X inp c n s' /\ MKeeps s s' /\ ms = [].
 Definition msound_eval (f : nat) : Prop :=
   forall inp X stk n pd prev e fr s o fr' ms s',
-    MInv p rk sB X inp s -> no_group e = true ->
+    MInv p rk sB X inp s ->
     (forall d, In d (expr_reads e) -> StkOk rk stk d /\ (rk d < rk n)%nat /\ nkind d <> KExternal) ->
     MFrOk rk s n fr -> (pd = true \/ MPrevOK s prev) -> (pd = true \/ X = []) ->
     meval f stk (CQuery n true pd prev) e fr s = Ok (o, fr', ms, s') ->
@@ -160,7 +159,7 @@ Definition msound_backward (f : nat) : Prop :=
     MInv p rk sB X inp s' /\ sverified s' n /\ has_pending s' n = false.
 
 Lemma mono_q : forall f, mmono_query p f.
-Proof. intro f. apply (mmono_all p Hng f). Qed.
+Proof. intro f. apply (mmono_all p f). Qed.
 
 (** * the TFC repair of a root *)
 Lemma msound_tfc : forall f inp, msound_query f ->
